@@ -148,6 +148,11 @@ func buildUserPacket(kind string, r *rng) *astits.Packet {
 			AdaptationField: buildAF("huge8", r), Payload: r.bytes(r.pick(0, 1, 10, 100))}
 	case "hugeafonly":
 		return &astits.Packet{Header: astits.PacketHeader{PID: 0x1ffe, HasAdaptationField: true, ContinuityCounter: uint8(r.intn(16))}, AdaptationField: buildAF(r.pickS("huge", "huge8"), r)}
+	case "negstuff": // a stuffing length below zero (what the parser reports for an adaptation_field_length shorter than its flagged content)
+		return &astits.Packet{Header: astits.PacketHeader{PID: 0x1ffe, HasPayload: true, HasAdaptationField: true, ContinuityCounter: uint8(r.intn(16))},
+			AdaptationField: &astits.PacketAdaptationField{HasPCR: true, PCR: &astits.ClockReference{Base: cr33(r)}, StuffingLength: -r.pick(1, 6, 7, 8, 100)}, Payload: r.bytes(r.pick(1, 100, 176, 177))}
+	case "nilaf": // the header announces an adaptation field, none is given
+		return &astits.Packet{Header: astits.PacketHeader{PID: 0x1ffe, HasPayload: true, HasAdaptationField: true, ContinuityCounter: uint8(r.intn(16))}, Payload: r.bytes(100)}
 	case "hugestuff":
 		return &astits.Packet{Header: astits.PacketHeader{PID: 0x1ffe, HasPayload: true, HasAdaptationField: true, ContinuityCounter: uint8(r.intn(16))},
 			AdaptationField: &astits.PacketAdaptationField{StuffingLength: r.pick(183, 200, 253, 254, 255, 256, 400, 437)}, Payload: r.bytes(r.pick(1, 10))}
